@@ -22,6 +22,8 @@ LABEL_NAMES += ['s1', 'ra', 'x5', 'a0', 'fp']
 # register names are lower case only (`addi A0, x0, 1` is refused: "A0" is no register), so an UPPER-case register spelling is
 # an ordinary identifier and a legal constant name
 CONST_NAMES += ['A0', 'SP', 'X5', 'ZERO', 'T1', 'S1']
+# likewise `ERROR = 5` / `String = 2` are constant definitions (only the lower-case words start a directive line)
+CONST_NAMES += ['ERROR', 'String']
 assert not set(LABEL_NAMES) & set(CONST_NAMES)
 
 EDGE_REGS = [0, 1, 2, 5, 6, 7, 8, 9, 15, 16, 31]
@@ -296,6 +298,9 @@ class Builder:
                 bv = b.value
             elif op in ('//', '%'):
                 b, bv = self.expr(depth - 1)
+                if self.chance(0.5):
+                    b = ir.Lit(self.pick([1, 10, 11, 100, 101, 2, 7, 16]))
+                    bv = b.value
                 if bv == 0:
                     b, bv = ir.Lit(self.i(1, 9)), None
                     bv = b.value
